@@ -142,8 +142,19 @@ Section Pass1.
             ext_covers o y r1 c1 r c = true -> r < h -> c < w ->
             gget (p1_marks st) r c = Some MIgnored
             \/ (gget (p1_marks st) r c = Some MDamaged /\ In (r1, c1) decs);
-    i_hid : forall r1 c1 y, In (r1, c1) done -> gget nw r1 c1 = Some y -> is_wide o y = true ->
-            hidden o nw r1 c1 = true -> S c1 < w -> gget (p1_marks st) r1 (S c1) = Some MDamaged;
+    (* the column behind a hidden wide character is Damaged when the character covering it was repainted *)
+    i_hid : forall r1 c0 y, In (r1, S c0) done -> gget nw r1 (S c0) = Some y -> is_wide o y = true ->
+            hidden o nw r1 (S c0) = true -> In (r1, c0) decs -> S (S c0) < w ->
+            gget (p1_marks st) r1 (S (S c0)) = Some MDamaged;
+    (* a processed character cell that is Damaged was treated as changed *)
+    i_dmg : forall r c y ch, In (r, c) done -> gget nw r c = Some y -> ckind y = KChar ch ->
+            gget (p1_marks st) r c = Some MDamaged -> In (r, c) decs;
+    (* [p1_recov]: the cell behind the shown wide character that has just been repainted *)
+    i_rec : forall r c, p1_recov st = Some (r, c) ->
+            exists c' y, c = S c' /\ In (r, c') decs /\ gget nw r c' = Some y /\ is_wide o y = true
+                         /\ hidden o nw r c' = false;
+    i_rec' : forall r c' y, In (r, c') decs -> ~ In (r, S c') done -> gget nw r c' = Some y ->
+             is_wide o y = true -> hidden o nw r c' = false -> p1_recov st = Some (r, S c');
     (* the cell right behind a shown wide character that has just been processed is Ignored when
        pass 1 reaches it *)
     i_next : forall r c' y, In (r, c') done -> ~ In (r, S c') done -> gget nw r c' = Some y ->
@@ -166,12 +177,13 @@ Section Pass1.
   Lemma gget_nw : forall r c, gget nw r c = option_map (resolve o) (gget front r c).
   Proof. intros. unfold nw. apply gget_gmap. Qed.
 
-  Lemma inv_init : Inv [] [] (mkp1 (gmake h w u) front [] []).
+  Lemma inv_init : Inv [] [] (mkp1 (gmake h w u) front [] [] None).
   Proof.
     constructor; simpl; try tauto.
     - apply gdims_gmake.
     - intros r c Hm. destruct (gget (gmake h w u) r c) eqn:E; [|discriminate].
       apply gget_gmake_inv in E. inversion Hm; subst. destruct Hu; discriminate.
+    - intros r c H. discriminate.
     - intros Hd r c Hr Hc. left. rewrite gget_gmake; auto. congruence.
     - split. constructor. intros. tauto.
   Qed.
@@ -227,9 +239,56 @@ Section Pass1.
     - unfold cell_good in Gz. rewrite Kz in Gz. contradiction.
   Qed.
 
-  Definition step_mark (chg : bool) (nm : mark) (oldc new : cell) (r0 c0 r c : nat) (v : mark) : mark :=
-    if ext_covers o new r0 c0 r c then nm
-    else if chg && ext_covers o oldc r0 c0 r c then MDamaged else v.
+  Lemma damage_extent_gget : forall m x r0 c0 r c,
+    gget (damage_extent o m x r0 c0) r c =
+    option_map (fun v => if ext_covers o x r0 c0 r c then damage_mark v else v) (gget m r c).
+  Proof.
+    intros. unfold damage_extent, ext_covers. destruct (extent o x r0 c0) as [[[a b] c1] d].
+    unfold gget. rewrite nth_error_mapi. destruct (nth_error m r) as [row|]; simpl; auto.
+    destruct (in_range a b r); simpl.
+    - rewrite nth_error_mapi. reflexivity.
+    - destruct (nth_error row c); reflexivity.
+  Qed.
+
+  Lemma gdims_damage_extent : forall m x r0 c0, gdims m h w -> gdims (damage_extent o m x r0 c0) h w.
+  Proof.
+    intros m x r0 c0 [Hh Hw]. unfold damage_extent. destruct (extent o x r0 c0) as [[[a b] c1] d].
+    split. rewrite mapi_length; auto.
+    intros row Hin. apply in_mapi in Hin. destruct Hin as (i & y & Hn & ->).
+    assert (length y = w) by (apply Hw; eapply nth_error_In; eauto).
+    destruct (in_range a b i); auto. rewrite mapi_length; auto.
+  Qed.
+
+  (* the extent of a cell reaches neither back in scan order nor, for a character, its own cell *)
+  Lemma ext_not_before : forall x r0 c0 r c, cell_good o w c0 x ->
+    ext_covers o x r0 c0 r c = true -> ~ before (r, c) (r0, c0).
+  Proof.
+    intros x r0 c0 r c Hg He Hb. unfold before in Hb. simpl in Hb. unfold cell_good in Hg.
+    destruct (ckind x) as [ch|i|g] eqn:K.
+    - apply (ext_covers_char o x ch) in He; auto. lia.
+    - rewrite (ext_covers_img o x i) in He; auto. unfold in_rect in He.
+      apply andb_true_iff in He. rewrite !in_range_true in He. lia.
+    - contradiction.
+  Qed.
+
+  Lemma ext_char_not_self : forall x ch r0 c0, ckind x = KChar ch -> ext_covers o x r0 c0 r0 c0 = false.
+  Proof.
+    intros x ch r0 c0 K. destruct (ext_covers o x r0 c0 r0 c0) eqn:E; auto.
+    apply (ext_covers_char o x ch) in E; auto. lia.
+  Qed.
+
+  Lemma covers_next_wide : forall c x, cell_good o w c x -> covers_next o x = is_wide o x.
+  Proof.
+    intros c x Hg. unfold covers_next, is_wide, cell_good in *. destruct (ckind x) as [ch|i|g]; auto.
+    destruct Hg as [->|[-> _]]; reflexivity.
+  Qed.
+
+  (* the mark of a cell after one step, uniformly in the branch taken *)
+  Definition step_mark (chg hid anew : bool) (oldc new : cell) (r0 c0 r c : nat) (v : mark) : mark :=
+    let v1 := if chg && ext_covers o oldc r0 c0 r c then MDamaged else v in
+    if ext_covers o new r0 c0 r c
+    then (if hid then (if anew then damage_mark v1 else v1) else MIgnored)
+    else v1.
 
   Lemma inv_step : forall done decs st r0 c0,
     Inv done decs st ->
@@ -249,18 +308,17 @@ Section Pass1.
     assert (Hgo : cell_good o w c0 oldc) by (eapply (good_cells _ _ _ _ Gold); eauto).
     assert (Hgn : cell_good o w c0 new) by (eapply (good_cells _ _ _ _ GN); eauto).
     unfold pass1_step. rewrite Ho, Hf0. fold new. rewrite Hmk.
-    set (hidq := is_ignored (Some mk) && is_char new).
-    set (nm := if hidq then MDamaged else MIgnored).
+    set (hid := is_ignored (Some mk) && is_char new).
+    set (anew := pos_is (p1_recov st) r0 c0).
     set (same := cell_eqb oldc new && negb (is_damaged (Some mk))).
     set (chg := negb same).
     (* the decision "hidden" taken from the mark is the semantic one *)
-    assert (Hhid : is_wide o new = true -> hidq = hidden o nw r0 c0).
+    assert (Hhid : is_wide o new = true -> hid = hidden o nw r0 c0).
     { intros Hwd. destruct (is_wide_char o new Hwd) as (chn & Kn & Wn).
       assert (Hic : is_char new = true) by (unfold is_char; rewrite Kn; reflexivity).
-      unfold hidq. rewrite Hic, andb_true_r.
+      unfold hid. rewrite Hic, andb_true_r.
       destruct (hidden o nw r0 c0) eqn:Eh.
-      - (* hidden: the shown wide character on the left has just marked this cell *)
-        assert (Hlw : left_wide o nw r0 c0 <> None) by (intros H; apply left_wide_hidden in H; congruence).
+      - assert (Hlw : left_wide o nw r0 c0 <> None) by (intros H; apply left_wide_hidden in H; congruence).
         destruct (left_wide o nw r0 c0) as [f|] eqn:El; [|congruence].
         apply left_wide_some in El. destruct El as (c' & y & -> & Hy & Hwy & Hhy & _).
         assert (Hdone : In (r0, c') done).
@@ -270,29 +328,40 @@ Section Pass1.
         destruct (i_ign _ _ _ HI r0 c0 Hmk) as (r1 & c1 & z & _ & Hz & Hsh & He).
         destruct (wide_cells_free r0 c0 new c0 r1 c1 z Hnw Hwd ltac:(lia) Hz Hsh He) as (-> & <- & Hwz & Hhz).
         destruct (hidden_S o nw r0 c1 z Hz Hwz Hhz) as [Hh' _]. congruence. }
-    assert (Hshown_nm : shown o nw new r0 c0 = true -> nm = MIgnored \/ forall r c, ext_covers o new r0 c0 r c = false).
+    (* a shown cell marks its extent Ignored (or has no extent) *)
+    assert (Hshown_hid : shown o nw new r0 c0 = true -> hid = false \/ forall r c, ext_covers o new r0 c0 r c = false).
     { intros Hsh. unfold shown in Hsh. destruct (is_wide o new) eqn:Ew.
-      - left. simpl in Hsh. apply negb_true_iff in Hsh. unfold nm. rewrite (Hhid eq_refl), Hsh. reflexivity.
+      - left. simpl in Hsh. apply negb_true_iff in Hsh. rewrite (Hhid eq_refl). exact Hsh.
       - destruct (ckind new) as [ch|i|g] eqn:Kn.
         + right. intros r c. destruct (ext_covers o new r0 c0 r c) eqn:E; auto.
           apply (ext_covers_char o new ch) in E; auto. unfold cell_good in Hgn. rewrite Kn in Hgn.
           unfold is_wide in Ew. rewrite Kn in Ew. apply Nat.eqb_neq in Ew. lia.
-        + left. unfold nm, hidq, is_char. rewrite Kn, andb_false_r. reflexivity.
+        + left. unfold hid, is_char. rewrite Kn, andb_false_r. reflexivity.
         + unfold cell_good in Hgn. rewrite Kn in Hgn. contradiction. }
-    assert (Hnm_ign : nm = MIgnored -> shown o nw new r0 c0 = true).
-    { intros Hn. unfold shown. destruct (is_wide o new) eqn:Ew; auto. simpl.
-      unfold nm in Hn. rewrite (Hhid eq_refl) in Hn. destruct (hidden o nw r0 c0); [discriminate|reflexivity]. }
+    assert (Hnothid_shown : hid = false -> (exists r c, ext_covers o new r0 c0 r c = true) -> shown o nw new r0 c0 = true).
+    { intros Hh _. unfold shown. destruct (is_wide o new) eqn:Ew; auto. simpl.
+      rewrite (Hhid eq_refl) in Hh. rewrite Hh. reflexivity. }
+    (* the flag "covered anew" is the semantic one *)
+    assert (Hanew : anew = true -> exists c' y, c0 = S c' /\ In (r0, c') decs /\ gget nw r0 c' = Some y
+                                              /\ is_wide o y = true /\ hidden o nw r0 c' = false).
+    { unfold anew, pos_is. destruct (p1_recov st) as [[r' c']|] eqn:Er; [|discriminate].
+      intros H. apply andb_true_iff in H. rewrite !Nat.eqb_eq in H. destruct H; subst r' c'.
+      exact (i_rec _ _ _ HI r0 c0 Er). }
     (* the resulting marks *)
-    set (marks' := fill_extent o (if chg then fill_extent o (p1_marks st) oldc r0 c0 MDamaged else p1_marks st)
-                               new r0 c0 nm).
+    set (mark_new := fun m => if hid then (if anew then damage_extent o m new r0 c0 else m)
+                              else fill_extent o m new r0 c0 MIgnored).
+    set (marks' := mark_new (if chg then fill_extent o (p1_marks st) oldc r0 c0 MDamaged else p1_marks st)).
     assert (Hmarks : forall r c, gget marks' r c =
-                                 option_map (step_mark chg nm oldc new r0 c0 r c) (gget (p1_marks st) r c)).
-    { intros r c. unfold marks', step_mark. rewrite fill_extent_gget.
-      destruct chg; simpl.
-      - rewrite fill_extent_gget. destruct (gget (p1_marks st) r c); simpl; auto.
-      - destruct (gget (p1_marks st) r c); simpl; auto. }
+                                 option_map (step_mark chg hid anew oldc new r0 c0 r c) (gget (p1_marks st) r c)).
+    { intros r c. unfold marks', mark_new, step_mark.
+      destruct hid; [destruct anew|]; rewrite ?damage_extent_gget, ?fill_extent_gget;
+        destruct chg; simpl; rewrite ?fill_extent_gget; destruct (gget (p1_marks st) r c); simpl; auto;
+        destruct (ext_covers o new r0 c0 r c); auto. }
     assert (Hmd : gdims marks' h w).
-    { unfold marks'. apply gdims_fill_extent. destruct chg; [apply gdims_fill_extent|]; apply HI. }
+    { unfold marks', mark_new.
+      assert (gdims (if chg then fill_extent o (p1_marks st) oldc r0 c0 MDamaged else p1_marks st) h w)
+        by (destruct chg; [apply gdims_fill_extent|]; apply HI).
+      destruct hid; [destruct anew|]; auto. apply gdims_damage_extent; auto. apply gdims_fill_extent; auto. }
     set (front' := gset (p1_front st) r0 c0 new).
     assert (Hfront_q : gget front' r0 c0 = Some new).
     { unfold front'. rewrite gget_gset, !Nat.eqb_refl. simpl. rewrite Hf0. reflexivity. }
@@ -306,6 +375,8 @@ Section Pass1.
       - right. unfold is_damaged in H. destruct mk; try discriminate. reflexivity. }
     assert (Hchg_false : chg = false -> oldc = new).
     { unfold chg, same. rewrite negb_false_iff, andb_true_iff. intros [H _]. apply cell_eqb_eq. exact H. }
+    assert (Hdmg_chg : mk = MDamaged -> chg = true).
+    { intros ->. unfold chg, same. simpl. rewrite andb_false_r. reflexivity. }
     set (decs' := if chg then (r0, c0) :: decs else decs).
     assert (Hdecs_mono : forall q, In q decs -> In q decs').
     { intros q Hq. unfold decs'. destruct chg; simpl; auto. }
@@ -317,19 +388,26 @@ Section Pass1.
     set (imgs' := match ckind new with
                   | KImg i => (r0, c0, cface new, i) :: p1_imgs st
                   | _ => p1_imgs st end).
-    set (st' := if chg then mkp1 marks' front' cmds' imgs'
-                else mkp1 marks' front' (p1_cmds st) (p1_imgs st)).
-    assert (Hst : (if same
-                   then mkp1 (fill_extent o (p1_marks st) new r0 c0 nm) front' (p1_cmds st) (p1_imgs st)
-                   else mkp1 (fill_extent o (fill_extent o (p1_marks st) oldc r0 c0 MDamaged) new r0 c0 nm)
-                             front' cmds' imgs') = st').
-    { unfold st', marks', chg. destruct same; reflexivity. }
-    fold front'. fold cmds'. fold imgs'. fold hidq. fold nm. fold same. rewrite Hst.
+    set (recov' := if negb hid && covers_next o new then Some (r0, S c0) else None).
+    set (st' := if chg then mkp1 marks' front' cmds' imgs' recov'
+                else mkp1 marks' front' (p1_cmds st) (p1_imgs st) None).
+    match goal with |- exists d, Inv _ d ?X =>
+      replace X with st' by (unfold st', marks', mark_new, recov', cmds', imgs', front', chg; destruct same; reflexivity) end.
     assert (Hm' : p1_marks st' = marks') by (unfold st'; destruct chg; reflexivity).
     assert (Hf' : p1_front st' = front') by (unfold st'; destruct chg; reflexivity).
+    assert (Hrec' : p1_recov st' = if chg then recov' else None) by (unfold st'; destruct chg; reflexivity).
     exists decs'.
     assert (Hin_app : forall q, In q (done ++ [(r0, c0)]) <-> In q done \/ q = (r0, c0)).
     { intros q. rewrite in_app_iff. simpl. intuition. }
+    (* marks of cells before the frontier do not change any more *)
+    assert (Hfrozen : forall r c, In (r, c) done -> gget marks' r c = gget (p1_marks st) r c).
+    { intros r c Hin. apply Hfront in Hin. destruct Hin as (Hr & Hc & Hb).
+      rewrite Hmarks. destruct (gget (p1_marks st) r c) as [v|]; simpl; auto. unfold step_mark.
+      assert (E1 : ext_covers o new r0 c0 r c = false).
+      { destruct (ext_covers o new r0 c0 r c) eqn:E; auto. exfalso. eapply ext_not_before; eauto. }
+      assert (E2 : ext_covers o oldc r0 c0 r c = false).
+      { destruct (ext_covers o oldc r0 c0 r c) eqn:E; auto. exfalso. eapply (ext_not_before oldc); eauto. }
+      rewrite E1, E2, andb_false_r. reflexivity. }
     constructor.
     - rewrite Hm'. exact Hmd.
     - rewrite Hf'. unfold front'. apply gdims_gset. apply HI.
@@ -350,44 +428,48 @@ Section Pass1.
         exfalso. apply Hnd'. unfold decs'. rewrite E. left. reflexivity.
     - (* i_dec *)
       intros r c Hin. rewrite Hm', Hmarks.
-      assert (Hkeep : forall v, v = MDamaged ->
-                step_mark chg nm oldc new r0 c0 r c v = MDamaged
+      assert (Hkeep : step_mark chg hid anew oldc new r0 c0 r c MDamaged = MDamaged
                 \/ exists r1 c1 y, gget nw r1 c1 = Some y /\ shown o nw y r1 c1 = true
                                    /\ ext_covers o y r1 c1 r c = true).
-      { intros v ->. unfold step_mark.
-        destruct (ext_covers o new r0 c0 r c) eqn:E1.
-        - destruct nm eqn:En; auto.
-          + exfalso. unfold nm in En. destruct hidq; discriminate.
-          + right. exists r0, c0, new. auto.
-        - destruct (chg && ext_covers o oldc r0 c0 r c); auto. }
+      { unfold step_mark.
+        replace (if chg && ext_covers o oldc r0 c0 r c then MDamaged else MDamaged) with MDamaged
+          by (destruct (chg && ext_covers o oldc r0 c0 r c); reflexivity).
+        destruct (ext_covers o new r0 c0 r c) eqn:E1; auto.
+        destruct hid eqn:Eh; [destruct anew; auto|].
+        right. exists r0, c0, new. split; auto. split; auto. apply Hnothid_shown; eauto. }
       apply Hdecs_inv in Hin. destruct Hin as [Hin|[Hc Heq]].
       + destruct (i_dec _ _ _ HI r c Hin) as [H|[H|H]]; auto.
-        rewrite H. simpl. destruct (Hkeep MDamaged eq_refl) as [Hk|Hk]; [rewrite Hk|]; auto.
+        rewrite H. simpl. destruct Hkeep as [Hk|Hk]; [rewrite Hk|]; auto.
       + inversion Heq; subst r c. destruct (Hchg_true Hc) as [H|H].
         * left. rewrite Ho, Hnw. congruence.
-        * subst mk. rewrite Hmk. simpl. destruct (Hkeep MDamaged eq_refl) as [Hk|Hk]; [rewrite Hk|]; auto.
+        * subst mk. rewrite Hmk. simpl. destruct Hkeep as [Hk|Hk]; [rewrite Hk|]; auto.
     - (* i_ign *)
       intros r c. rewrite Hm', Hmarks.
       destruct (gget (p1_marks st) r c) as [v|] eqn:Ev; [|discriminate]. simpl. unfold step_mark.
+      set (v1 := if chg && ext_covers o oldc r0 c0 r c then MDamaged else v).
+      assert (Hv1 : v1 = MIgnored -> v = MIgnored).
+      { unfold v1. destruct (chg && ext_covers o oldc r0 c0 r c); [discriminate|auto]. }
+      assert (Hold : v = MIgnored -> exists r1 c1 y, In (r1, c1) (done ++ [(r0, c0)]) /\ gget nw r1 c1 = Some y
+                                      /\ shown o nw y r1 c1 = true /\ ext_covers o y r1 c1 r c = true).
+      { intros ->. destruct (i_ign _ _ _ HI r c Ev) as (r1 & c1 & y & Hd & Hy & Hsh & He).
+        exists r1, c1, y. split; [apply Hin_app; auto|]. auto. }
       destruct (ext_covers o new r0 c0 r c) eqn:E1.
-      + intros H. inversion H as [Hn]. exists r0, c0, new. split; [apply Hin_app; auto|]. auto.
-      + destruct (chg && ext_covers o oldc r0 c0 r c); [discriminate|].
-        intros H. inversion H; subst.
-        destruct (i_ign _ _ _ HI r c Ev) as (r1 & c1 & y & Hd & Hy & Hsh & He).
-        exists r1, c1, y. split; [apply Hin_app; auto|]. auto.
+      + destruct hid eqn:Eh.
+        * destruct anew.
+          -- intros H. inversion H as [Hd]. apply Hold. apply Hv1. destruct v1; simpl in Hd; congruence.
+          -- intros H. inversion H as [Hd]. apply Hold. apply Hv1. exact Hd.
+        * intros _. exists r0, c0, new. split; [apply Hin_app; auto|]. split; auto. split; auto.
+          apply Hnothid_shown; eauto.
+      + intros H. inversion H as [Hd]. apply Hold. apply Hv1. exact Hd.
     - (* i_new *)
       intros r1 c1 y r c Hin Hy Hsh He Hr Hc. rewrite Hm', Hmarks.
       destruct (gget_in_bounds (p1_marks st) h w r c (i_mdims _ _ _ HI) Hr Hc) as (v & Hv).
       rewrite Hv. simpl. unfold step_mark.
       apply Hin_app in Hin. destruct Hin as [Hin|Heq].
       2:{ inversion Heq; subst r1 c1. rewrite Hnw in Hy. inversion Hy; subst y. rewrite He.
-          destruct (Hshown_nm Hsh) as [->|Hno]; auto. rewrite Hno in He. discriminate. }
+          destruct (Hshown_hid Hsh) as [->|Hno]; auto. rewrite Hno in He. discriminate. }
       destruct (ext_covers o new r0 c0 r c) eqn:E1.
-      { (* the new cell reaches the same cell as an earlier shown object: impossible unless it is Ignored *)
-        destruct nm eqn:En; auto.
-        - exfalso. unfold nm in En. destruct hidq; discriminate.
-        - exfalso.
-          destruct (ext_unique nw GN r1 c1 y r0 c0 new r c Hy Hnw Hr Hc He E1) as [-> ->]. contradiction. }
+      { exfalso. destruct (ext_unique nw GN r1 c1 y r0 c0 new r c Hy Hnw Hr Hc He E1) as [-> ->]. contradiction. }
       destruct (i_new _ _ _ HI r1 c1 y r c Hin Hy Hsh He Hr Hc) as [H|[H1 H2]].
       + rewrite Hv in H. inversion H; subst v.
         destruct (chg && ext_covers o oldc r0 c0 r c) eqn:E2; auto.
@@ -399,23 +481,79 @@ Section Pass1.
       + rewrite Hv in H1. inversion H1; subst v.
         destruct (chg && ext_covers o oldc r0 c0 r c); auto.
     - (* i_hid *)
-      intros r1 c1 y Hin Hy Hwy Hhy Hfit. rewrite Hm', Hmarks.
-      assert (Hb1 : r1 < h /\ c1 < w) by (exact (gget_some_bounds nw h w r1 c1 y (good_dims _ _ _ _ GN) Hy)).
-      destruct (gget_in_bounds (p1_marks st) h w r1 (S c1) (i_mdims _ _ _ HI) (proj1 Hb1) Hfit) as (v & Hv).
+      intros r1 c00 y Hin Hy Hwy Hhy Hcov Hfit. rewrite Hm', Hmarks.
+      assert (Hb1 : r1 < h /\ S c00 < w) by (exact (gget_some_bounds nw h w r1 (S c00) y (good_dims _ _ _ _ GN) Hy)).
+      destruct (gget_in_bounds (p1_marks st) h w r1 (S (S c00)) (i_mdims _ _ _ HI) (proj1 Hb1) Hfit) as (v & Hv).
       rewrite Hv. simpl. unfold step_mark.
+      set (v1 := if chg && ext_covers o oldc r0 c0 r1 (S (S c00)) then MDamaged else v).
       apply Hin_app in Hin. destruct Hin as [Hin|Heq].
-      + pose proof (i_hid _ _ _ HI r1 c1 y Hin Hy Hwy Hhy Hfit) as H. rewrite Hv in H. inversion H; subst v.
-        destruct (ext_covers o new r0 c0 r1 (S c1)) eqn:E1.
-        * destruct nm eqn:En; auto.
-          -- exfalso. unfold nm in En. destruct hidq; discriminate.
-          -- exfalso. pose proof (Hnm_ign eq_refl) as Hshn.
-             destruct (wide_cells_free r1 c1 y (S c1) r0 c0 new Hy Hwy ltac:(lia) Hnw Hshn E1) as (-> & Hc' & _ & _).
-             inversion Hc'; subst. contradiction.
-        * destruct (chg && ext_covers o oldc r0 c0 r1 (S c1)); auto.
-      + inversion Heq; subst r1 c1. rewrite Hnw in Hy. inversion Hy; subst y.
+      + (* an earlier hidden character: its cover was processed even earlier *)
+        assert (Hcov0 : In (r1, c00) decs).
+        { apply Hdecs_inv in Hcov. destruct Hcov as [H|[_ Heq]]; auto. exfalso. inversion Heq; subst.
+          apply Hfront in Hin. destruct Hin as (_ & _ & Hb). unfold before in Hb. simpl in Hb. lia. }
+        pose proof (i_hid _ _ _ HI r1 c00 y Hin Hy Hwy Hhy Hcov0 Hfit) as H. rewrite Hv in H. inversion H; subst v.
+        assert (Hv1 : v1 = MDamaged) by (unfold v1; destruct (chg && _); reflexivity).
+        rewrite Hv1.
+        destruct (ext_covers o new r0 c0 r1 (S (S c00))) eqn:E1; auto.
+        destruct hid eqn:Eh; [destruct anew; reflexivity|].
+        exfalso. pose proof (Hnothid_shown eq_refl ltac:(eauto)) as Hshn.
+        destruct (wide_cells_free r1 (S c00) y (S (S c00)) r0 c0 new Hy Hwy ltac:(lia) Hnw Hshn E1) as (-> & Hc' & _ & _).
+        inversion Hc'; subst. contradiction.
+      + (* the hidden character is the cell being processed *)
+        inversion Heq; subst r1 c0. rewrite Hnw in Hy. inversion Hy; subst y.
         destruct (is_wide_char o new Hwy) as (chn & Kn & Wn).
-        assert (E1 : ext_covers o new r0 c0 r0 (S c0) = true) by (apply (ext_covers_char o new chn); auto; lia).
-        rewrite E1. unfold nm. rewrite (Hhid Hwy), Hhy. reflexivity.
+        assert (E1 : ext_covers o new r0 (S c00) r0 (S (S c00)) = true) by (apply (ext_covers_char o new chn); auto; lia).
+        rewrite E1. rewrite (Hhid Hwy), Hhy.
+        assert (Hcov0 : In (r0, c00) decs).
+        { apply Hdecs_inv in Hcov. destruct Hcov as [H|[_ Heq']]; auto. inversion Heq'. lia. }
+        assert (Han : anew = true).
+        { destruct (left_wide o nw r0 (S c00)) as [f|] eqn:El.
+          - apply left_wide_some in El. destruct El as (c' & z & Hc' & Hz & Hwz & Hhz & _). inversion Hc'; subst c'.
+            unfold anew. rewrite (i_rec' _ _ _ HI r0 c00 z Hcov0 Hnd Hz Hwz Hhz). unfold pos_is. rewrite !Nat.eqb_refl. reflexivity.
+          - apply left_wide_hidden in El. congruence. }
+        rewrite Han.
+        (* the cell behind is not Ignored: nothing shown reaches it *)
+        assert (Hni : v1 <> MIgnored).
+        { unfold v1. destruct (chg && _); [discriminate|]. intros ->.
+          destruct (i_ign _ _ _ HI r0 (S (S c00)) Hv) as (r2 & c2 & z & _ & Hz & Hsh & He).
+          destruct (wide_cells_free r0 (S c00) new (S (S c00)) r2 c2 z Hnw Hwy ltac:(lia) Hz Hsh He) as (-> & Hc' & _ & Hhz).
+          inversion Hc'; subst c2. congruence. }
+        destruct v1; simpl; congruence.
+    - (* i_dmg *)
+      intros r c y ch Hin Hy Ky. rewrite Hm'. apply Hin_app in Hin. destruct Hin as [Hin|Heq].
+      + rewrite (Hfrozen r c Hin). intros Hd. apply Hdecs_mono. eapply (i_dmg _ _ _ HI); eauto.
+      + inversion Heq; subst r c. rewrite Hnw in Hy. inversion Hy; subst y.
+        rewrite Hmarks, Hmk. simpl. unfold step_mark. rewrite (ext_char_not_self new ch r0 c0 Ky).
+        intros Hd. assert (Hc : chg = true).
+        { destruct (chg && ext_covers o oldc r0 c0 r0 c0) eqn:E.
+          - apply andb_true_iff in E. tauto.
+          - apply Hdmg_chg. congruence. }
+        unfold decs'. rewrite Hc. left. reflexivity.
+    - (* i_rec *)
+      intros r c. rewrite Hrec'. destruct chg eqn:Ec; [|discriminate].
+      unfold recov'. destruct (negb hid && covers_next o new) eqn:E; [|discriminate].
+      intros H. inversion H; subst r c. apply andb_true_iff in E. destruct E as [Eh Ew].
+      apply negb_true_iff in Eh. rewrite (covers_next_wide c0 new Hgn) in Ew.
+      exists c0, new. split; auto. split; [unfold decs'; left; reflexivity|]. split; auto. split; auto.
+      rewrite <- (Hhid Ew). exact Eh.
+    - (* i_rec' *)
+      intros r c' y Hin Hnin Hy Hwy Hhy. rewrite Hrec'.
+      assert (Hb1 : r < h /\ c' < w) by (exact (gget_some_bounds nw h w r c' y (good_dims _ _ _ _ GN) Hy)).
+      pose proof (good_cells _ _ _ _ GN r c' y Hy) as Gy. destruct (is_wide_char o y Hwy) as (chy & Ky & Wy).
+      unfold cell_good in Gy. rewrite Ky in Gy.
+      assert (Hq : (r, c') = (r0, c0)).
+      { apply Hdecs_inv in Hin. destruct Hin as [Hin|[_ Heq]]; auto. exfalso.
+        apply (i_decs _ _ _ HI) in Hin. apply Hfront in Hin. destruct Hin as (_ & _ & Hbef).
+        unfold before in Hbef. simpl in Hbef. apply Hnin. apply Hin_app.
+        destruct (Nat.eq_dec r r0) as [->|Hne].
+        - destruct (Nat.eq_dec (S c') c0) as [<-|Hne2]; auto.
+          left. apply Hfront. repeat split; auto; try lia. right. simpl. lia.
+        - left. apply Hfront. repeat split; auto; try lia. left. simpl. lia. }
+      inversion Hq; subst r c'. rewrite Hnw in Hy. inversion Hy; subst y.
+      assert (Hc : chg = true).
+      { apply Hdecs_inv in Hin. destruct Hin as [Hin|[Hc _]]; auto.
+        exfalso. apply Hnd. apply (i_decs _ _ _ HI). exact Hin. }
+      rewrite Hc. unfold recov'. rewrite (covers_next_wide c0 new Hgn), Hwy, (Hhid Hwy), Hhy. reflexivity.
     - (* i_next *)
       intros r c' y Hin Hnin Hy Hwy Hhy Hfit. rewrite Hm', Hmarks.
       assert (Hb1 : r < h /\ c' < w) by (exact (gget_some_bounds nw h w r c' y (good_dims _ _ _ _ GN) Hy)).
@@ -432,31 +570,34 @@ Section Pass1.
       rewrite Hv. simpl. unfold step_mark.
       destruct (is_wide_char o new Hwy) as (chn & Kn & Wn).
       assert (E1 : ext_covers o new r0 c0 r0 (S c0) = true) by (apply (ext_covers_char o new chn); auto; lia).
-      rewrite E1. unfold nm. rewrite (Hhid Hwy), Hhy. reflexivity.
+      rewrite E1. rewrite (Hhid Hwy), Hhy. reflexivity.
     - (* i_old *)
       intros r1 c1 y r c Hin Hy He Hr Hc Hnone. rewrite Hm', Hmarks.
       destruct (gget_in_bounds (p1_marks st) h w r c (i_mdims _ _ _ HI) Hr Hc) as (v & Hv).
       rewrite Hv. simpl. unfold step_mark.
-      assert (Hnew : ext_covers o new r0 c0 r c = true -> nm = MDamaged).
-      { intros E. destruct nm eqn:En; auto.
-        - exfalso. unfold nm in En. destruct hidq; discriminate.
-        - exfalso. rewrite (Hnone r0 c0 new Hnw (Hnm_ign eq_refl)) in E. discriminate. }
-      apply Hdecs_inv in Hin. destruct Hin as [Hin|[Hc' Heq]].
-      + pose proof (i_old _ _ _ HI r1 c1 y r c Hin Hy He Hr Hc Hnone) as H.
-        rewrite Hv in H. inversion H; subst v.
-        destruct (ext_covers o new r0 c0 r c) eqn:E1; [rewrite (Hnew eq_refl); reflexivity|].
-        destruct (chg && ext_covers o oldc r0 c0 r c); auto.
-      + inversion Heq; subst r1 c1. rewrite Ho in Hy. inversion Hy; subst y.
-        destruct (ext_covers o new r0 c0 r c) eqn:E1; [rewrite (Hnew eq_refl); reflexivity|].
-        rewrite Hc', He. reflexivity.
+      set (v1 := if chg && ext_covers o oldc r0 c0 r c then MDamaged else v).
+      assert (Hv1 : v1 = MDamaged).
+      { unfold v1. apply Hdecs_inv in Hin. destruct Hin as [Hin|[Hc' Heq]].
+        - pose proof (i_old _ _ _ HI r1 c1 y r c Hin Hy He Hr Hc Hnone) as H.
+          rewrite Hv in H. inversion H; subst v. destruct (chg && _); reflexivity.
+        - inversion Heq; subst r1 c1. rewrite Ho in Hy. inversion Hy; subst y. rewrite Hc', He. reflexivity. }
+      rewrite Hv1.
+      destruct (ext_covers o new r0 c0 r c) eqn:E1; auto.
+      destruct hid eqn:Eh; [destruct anew; reflexivity|].
+      exfalso. rewrite (Hnone r0 c0 new Hnw (Hnothid_shown eq_refl ltac:(eauto))) in E1. discriminate.
     - (* i_forced *)
       intros Hd r c Hr Hc. rewrite Hm', Hmarks.
       destruct (gget_in_bounds (p1_marks st) h w r c (i_mdims _ _ _ HI) Hr Hc) as (v & Hv).
       rewrite Hv. simpl. unfold step_mark.
+      set (v1 := if chg && ext_covers o oldc r0 c0 r c then MDamaged else v).
+      assert (Hv1 : v1 = MDamaged \/ v1 = MIgnored).
+      { unfold v1. destruct (chg && _); auto.
+        destruct (i_forced _ _ _ HI Hd r c Hr Hc) as [H|H]; rewrite Hv in H; inversion H; auto. }
       destruct (ext_covers o new r0 c0 r c).
-      { unfold nm. destruct hidq; auto. }
-      destruct (chg && ext_covers o oldc r0 c0 r c); auto.
-      destruct (i_forced _ _ _ HI Hd r c Hr Hc) as [H|H]; rewrite Hv in H; inversion H; auto.
+      + destruct hid; [destruct anew|]; auto.
+        * destruct Hv1 as [->| ->]; simpl; auto.
+        * destruct Hv1 as [->| ->]; auto.
+      + destruct Hv1 as [->| ->]; auto.
     - (* i_cmds *)
       destruct (i_cmds _ _ _ HI) as [Hall Hiff].
       unfold st', decs'. destruct chg eqn:Ec; simpl; [|split; auto].
@@ -539,7 +680,9 @@ Section Pass1.
       + intros r1 c1 y r c Hy Hsh He Hr Hc.
         destruct (i_new _ _ _ HI r1 c1 y r c (Hbn _ _ _ Hy) Hy Hsh He Hr Hc) as [H|[H1 H2]]; auto.
         right. split; auto. apply pos_mem_in. auto.
-      + intros r1 c1 y Hy Hwy Hhy Hfit. apply (i_hid _ _ _ HI r1 c1 y); auto. eapply Hbn; eauto.
+      + intros r1 c0 y Hy Hwy Hhy Hd Hfit. apply pos_mem_in in Hd.
+        apply (i_hid _ _ _ HI r1 c0 y); auto. eapply Hbn; eauto.
+      + intros r c y ch Hy Ky Hd. apply pos_mem_in. eapply (i_dmg _ _ _ HI); eauto.
       + intros r1 c1 y r c Hy Hd He Hr Hc Hnone. apply pos_mem_in in Hd.
         apply (i_old _ _ _ HI r1 c1 y r c); auto.
       + apply (i_forced _ _ _ HI).
